@@ -932,7 +932,11 @@ spifconf_parse_line(FILE * fp, spif_charptr_t buff)
 
               spifconf_shell_expand((spif_charptr_t) buff);
               path = spiftool_get_word(2, buff + 1);
-              if (!(fp = spifconf_open_file(path))) {
+              if (!file_peek_fp()) {
+                  /* A line given outside any file:  nothing would ever read the included one. */
+                  libast_print_error("Parsing %s:  %%include is only possible inside a config file, ignoring %s\n", file_peek_path(), NONULL(path));
+                  FREE(path);
+              } else if (!(fp = spifconf_open_file(path))) {
                   libast_print_error("Parsing file %s, line %lu:  Unable to locate %%included config file %s (%s), continuing\n", file_peek_path(),
                               file_peek_line(), path, strerror(errno));
                   FREE(path);
@@ -946,6 +950,11 @@ spifconf_parse_line(FILE * fp, spif_charptr_t buff)
               FILE *fp;
 
               if (file_peek_preproc()) {
+                  SPIFCONF_PARSE_RET();
+              }
+              if (!file_peek_fp()) {
+                  /* A line given outside any file:  there is no file to preprocess. */
+                  libast_print_error("Parsing %s:  %%preproc is only possible inside a config file\n", file_peek_path());
                   SPIFCONF_PARSE_RET();
               }
               strcpy((char *) fname, "Eterm-preproc-");
